@@ -25,4 +25,41 @@ theorem src_setTgt_keeps_src (m : BitVec 32) (sq : BitVec 8) :
 theorem src_setSrc_keeps_tgt (m : BitVec 32) (sq : BitVec 8) :
     move.Move_GetTargetSquare (move.Move_SetSourceSquare m (sq &&& 63#8)) = move.Move_GetTargetSquare m := by tie_tac
 
+/-! scoring keeps the move kind and the promotion piece (all words, all scores) -/
+theorem setScore_kind_bits (m : BitVec 32) (s : BitVec 16) :
+    ((move.Move_SetScore m s) >>> 12) &&& 3#32 = (m >>> 12) &&& 3#32 := by tie_tac
+theorem setScore_promo_bits (m : BitVec 32) (s : BitVec 16) :
+    ((move.Move_SetScore m s) >>> 14) &&& 3#32 = (m >>> 14) &&& 3#32 := by tie_tac
+theorem src_setScore_keeps_kind (m : BitVec 32) (s : BitVec 16) :
+    move.Move_GetMoveType (move.Move_SetScore m s) = move.Move_GetMoveType m := by
+  simp only [move.Move_GetMoveType, setScore_kind_bits]
+theorem src_setScore_keeps_promo (m : BitVec 32) (s : BitVec 16) :
+    move.Move_GetPromitionPieceType (move.Move_SetScore m s) = move.Move_GetPromitionPieceType m := by
+  simp only [move.Move_GetPromitionPieceType, setScore_promo_bits]
+
+/-! the builder chain of the generators -/
+
+theorem kindword : ∀ k : Fin 4, BitVec.ofInt 32 (((k.val : Nat) : Int) <<< 12) = BitVec.ofNat 32 (k.val * 4096) := by decide
+
+/-- the word the generators build (`new(Move).SetSourceSquare(s).SetTargetSquare(t).SetMoveType(k)`) is read back field by field -/
+theorem src_builder_roundtrip (k : Fin 4) (sq tg : BitVec 8) :
+    let m := move.Move_SetMoveType (move.Move_SetTargetSquare (move.Move_SetSourceSquare 0#32 (sq &&& 63#8)) (tg &&& 63#8)) ((k.val : Nat) : Int)
+    move.Move_GetSourceSquare m = sq &&& 63#8 ∧ move.Move_GetTargetSquare m = tg &&& 63#8 ∧
+    move.Move_GetMoveType m = ((k.val : Nat) : Int) ∧ move.Move_GetScore m = 0#16 := by
+  intro m
+  have hm : m = ((BitVec.setWidth 32 (sq &&& 63#8)) ||| ((BitVec.setWidth 32 (tg &&& 63#8)) <<< 6)) ||| BitVec.ofNat 32 (k.val * 4096) := by
+    simp only [m, move.Move_SetMoveType, move.Move_SetTargetSquare, move.Move_SetSourceSquare, kindword, BitVec.zero_or]
+  rcases k with ⟨k, hk⟩
+  have : k = 0 ∨ k = 1 ∨ k = 2 ∨ k = 3 := by omega
+  rcases this with rfl | rfl | rfl | rfl <;> (simp only [] at hm; rw [hm]; refine ⟨?_, ?_, ?_, ?_⟩)
+  all_goals first
+    | tie_tac
+    | (simp only [move.Move_GetMoveType]
+       have h : ∀ a b : BitVec 32, a = b → ((a.toNat : Nat) : Int) = ((b.toNat : Nat) : Int) := fun _ _ h => by rw [h]
+       first
+         | (refine (h _ (0#32) ?_); tie_tac)
+         | (refine (h _ (1#32) ?_); tie_tac)
+         | (refine (h _ (2#32) ?_); tie_tac)
+         | (refine (h _ (3#32) ?_); tie_tac))
+
 end Clemens
